@@ -26,6 +26,9 @@ Oracle (API boundary unless stated):
   resumeProducing before doWrite returns;
 * progress: while connected with bytes outstanding the descriptor is a registered writer, and a
   final cooperative drain hands over everything written;
+* close completes (decided on logical steps, not time): once loseConnection() was requested, if
+  nothing is outstanding, no producer is registered and the descriptor is not a registered writer
+  (nothing can ever call doWrite again), connectionLost must already have been delivered;
 * conservation (internal, DESIGN C14): len(dataBuffer) - offset + _tempDataLen == written - accepted.
 
 Guards (latitude the code legitimately has): writes after loseConnection() but before the close are
@@ -341,6 +344,12 @@ def make_world(ctx, rng, case):
         if CHECK_INTERNAL and (real != out or fd._tempDataLen != sum(map(len, fd._tempDataBuffer))):
             w.violation("buffer-accounting", "len(dataBuffer)-offset+_tempDataLen differs from written-accepted (or _tempDataLen from the staged chunks)",
                         real_outstanding=real, model_outstanding=out, tempDataLen=fd._tempDataLen, staged=sum(map(len, fd._tempDataBuffer)), op=label)
+        if w.lc_mark is not None and out == 0 and w.producer is None and fd not in reactor.writers:
+            # bounded-progress reading of "closed only after everything ... was handed over": the close
+            # was requested, nothing is buffered, no producer could add anything and nobody will ever
+            # call doWrite again (not a registered writer) - so the close can never happen any more
+            w.violation("close-never-completes", "loseConnection() was requested, everything was handed over, no producer is registered, "
+                        "yet the descriptor is neither closed nor registered for writing: connectionLost can never be delivered", op=label)
         if out > 0 and fd not in reactor.writers:
             w.violation("outstanding-bytes-not-scheduled", "bytes are outstanding on a connected descriptor that is not registered for writing", outstanding=out, op=label)
 
